@@ -429,4 +429,18 @@ def run(ctx):
                 bad = r
                 ctx.check('C08.O3', r is None, rcn.name, 'ReplaceContent:failure-ignored:%s' % e['name'], rcn.where(e),
                           'a failed %s makes ReplaceContent fail' % e['name'])
-    ctx.floor('C08.O3', 12)
+    # a generator command may itself rewrite .ninja_log (cmake runs `ninja -t restat/recompact`): the build log
+    # is closed before every generator edge is started and reopened lazily by the next record
+    bb = prog.fn('Builder::Build')
+    gen_edges = [(b, i, s2) for b, blk in bb.blocks.items() for i, s2 in enumerate(blk['succ']) if s2 is not None and
+                 any('"generator"' in k and ((pol is True and 'empty()' not in k) or (pol is False and 'empty()' in k))
+                     for k, pol, atom in bb.edge_facts(b, i))]
+    okg = bool(gen_edges)
+    for b, i, s2 in gen_edges:
+        r = bb.find_path(None, lambda x: x['k'] == 'call' and x.get('name') == 'Builder::StartEdge', from_succ=s2,
+                         is_blocker=lambda x: x['k'] == 'call' and x.get('name') == 'BuildLog::Close')
+        okg = okg and r is None
+    ses = list(bb.calls('Builder::StartEdge'))
+    ctx.check('C08.O3', okg and len(ses) >= 1, bb.name, 'generator:log-held-open', bb.loc,
+              'Builder::Build tests the generator binding of the edge it is about to start and closes the build log first')
+    ctx.floor('C08.O3', 13)
